@@ -32,6 +32,10 @@ type Cfg struct {
 	Defer   bool `json:"defer"`
 	Recover bool `json:"recover"`
 	Dry     bool `json:"dry"`
+	// OptSeq, when present, is the exact sequence of options handed to dig.New: ["dry",b] = DryRun(b),
+	// ["defer",true] = DeferAcyclicVerification(), ["recover",true] = RecoverFromPanics().  The last DryRun counts;
+	// the effective configuration must be the one the three fields state (what the model reads).
+	OptSeq [][]interface{} `json:"optseq"`
 }
 
 // GoT is a Go type expression: exactly one of U, Ptr, St is set.
@@ -184,6 +188,9 @@ func FatalRes(kind, msg string) *ProgRes {
 type UserErr struct{ Fn, X int }
 
 func (e *UserErr) Error() string { return fmt.Sprintf("user error %d:%d", e.Fn, e.X) }
+
+// Code makes *UserErr implement pool.EI, the user-defined error interface of the universe.
+func (e *UserErr) Code() int { return e.X }
 
 // UserPanic is the value scripted functions panic with.
 type UserPanic struct{ Fn, X int }
